@@ -455,6 +455,165 @@ async fn run_cases(seed: u64, cases: Vec<Case>) -> Option<Vec<(Case, Obs)>> {
     ready.then_some(out)
 }
 
+// ------------------------------------------------------------------ what the tunnel is asked for
+
+/// A server of our own behind the client: it completes the penguin-v7 upgrade, runs a real `Multiplexor` on the connection and
+/// records the target (host octets, port) of every stream request before dropping the stream.
+async fn recording_server(l: TcpListener, rec: std::sync::Arc<std::sync::Mutex<Vec<(Vec<u8>, u16)>>>) {
+    use tokio_tungstenite::tungstenite::handshake::server::{Request, Response};
+    loop {
+        let Ok((s, _)) = l.accept().await else { break };
+        let rec = rec.clone();
+        tokio::spawn(async move {
+            s.set_nodelay(true).ok();
+            let cb = |_req: &Request, mut resp: Response| {
+                resp.headers_mut().insert("sec-websocket-protocol", "penguin-v7".parse().expect("header"));
+                Ok(resp)
+            };
+            let Ok(ws) = tokio_tungstenite::accept_hdr_async(s, cb).await else { return };
+            let mux = penguin_mux::Multiplexor::new(ws);
+            while let Ok(st) = mux.accept_stream_channel().await {
+                rec.lock().unwrap().push((st.dest_host.to_vec(), st.dest_port));
+                drop(st);
+            }
+        });
+    }
+}
+
+/// The address a SOCKS request names is the address the tunnel is asked for: the same octets for a domain name (SOCKS5 ATYP 3,
+/// SOCKS4a), the same address for literals, the same port - whatever octets the name consists of (RFC 1928 puts no character
+/// set on DST.ADDR).
+async fn passed_on(st: &mut Stats, seed: u64, n: usize) {
+    let rec = std::sync::Arc::new(std::sync::Mutex::new(Vec::new()));
+    let srv_l = TcpListener::bind("127.0.0.1:0").await.expect("bind");
+    let srv_addr = srv_l.local_addr().expect("addr");
+    let srv = tokio::spawn(recording_server(srv_l, rec.clone()));
+    let socks_port = net::free_tcp_port(false);
+    let args: &'static ClientArgs = Box::leak(Box::new(ClientArgs {
+        server: ServerUrl::from_str(&format!("ws://{srv_addr}/ws")).expect("url"),
+        remote: vec![Remote::from_str(&format!("127.0.0.1:{socks_port}:socks")).expect("remote")],
+        keepalive: OptionalDuration::NONE,
+        keepalive_timeout: OptionalDuration::NONE,
+        max_retry_count: 0,
+        max_retry_interval: 400,
+        handshake_timeout: OptionalDuration::from_secs(5),
+        channel_timeout: OptionalDuration::from_secs(10),
+        ..Default::default()
+    }));
+    let (hr, scrx, dgrx) = HandlerResources::create();
+    let hr: &'static HandlerResources = Box::leak(Box::new(hr));
+    let cl = tokio::spawn(client::client_main_inner(args, hr, scrx, dgrx));
+    let mut rng = Rng64::new(mix(seed, 0x9A55));
+    // names: plain, UTF-8, and octets that are no UTF-8 at all (Latin-1, a lone continuation byte, a cut multi-byte sequence)
+    let corpus: Vec<Vec<u8>> = vec![
+        b"example.org".to_vec(), b"a".to_vec(), "b\u{fc}cher.example".as_bytes().to_vec(), "\u{4f8b}\u{3048}.jp".as_bytes().to_vec(),
+        vec![b'b', 0xfc, b'c', b'h', b'.', b'd', b'e'], vec![0x80], vec![b'x', 0xff, 0xfe, b'y'], vec![b'q', 0xe2, 0x82], vec![0xc3, 0x28, b'.', b'z'],
+        vec![b'm'; 255], { let mut v = vec![b'n'; 200]; v.push(0xe9); v },
+    ];
+    let mut asked = 0usize;
+    for i in 0..n {
+        let port: u16 = *rng.pick(&[1u16, 80, 443, 65535, 1024, 256, 255]);
+        let kind = rng.below(5);
+        let name = rng.pick(&corpus).clone();
+        // (SOCKS4a names are NUL-terminated: no NUL inside, and 255 octets are plenty)
+        let (req, want_host, what): (Vec<u8>, Option<Vec<u8>>, &str) = match kind {
+            0 | 1 => {
+                let mut r = vec![5u8, 1, 0, 5, 1, 0, 3, name.len() as u8];
+                r.extend(&name);
+                r.extend(port.to_be_bytes());
+                (r, Some(name.clone()), "socks5-domain")
+            }
+            2 => {
+                let mut r = vec![4u8, 1];
+                r.extend(port.to_be_bytes());
+                r.extend([0, 0, 0, 7]);
+                r.extend(b"u\0");
+                r.extend(&name);
+                r.push(0);
+                (r, Some(name.clone()), "socks4a-domain")
+            }
+            3 => {
+                let ip = [rng.next() as u8 | 1, rng.next() as u8, rng.next() as u8, rng.next() as u8];
+                let mut r = vec![5u8, 1, 0, 5, 1, 0, 1];
+                r.extend(ip);
+                r.extend(port.to_be_bytes());
+                (r, Some(std::net::Ipv4Addr::from(ip).to_string().into_bytes()), "socks5-ipv4")
+            }
+            _ => {
+                let mut ip = [0u8; 16];
+                for b in ip.iter_mut() {
+                    *b = rng.next() as u8;
+                }
+                ip[0] = 0x20;
+                let mut r = vec![5u8, 1, 0, 5, 1, 0, 4];
+                r.extend(ip);
+                r.extend(port.to_be_bytes());
+                (r, None, "socks5-ipv6")
+            }
+        };
+        let before = rec.lock().unwrap().len();
+        let Ok(mut s) = TcpStream::connect(("127.0.0.1", socks_port)).await else {
+            if cl.is_finished() {
+                break;
+            }
+            tokio::time::sleep(Duration::from_millis(100)).await;
+            continue;
+        };
+        if s.write_all(&req).await.is_err() {
+            continue;
+        }
+        // wait for the request to show up at the far end (the reply to the SOCKS client is not what is judged here)
+        let mut got = None;
+        for _ in 0..300 {
+            {
+                let g = rec.lock().unwrap();
+                if g.len() > before {
+                    got = Some(g[before].clone());
+                    break;
+                }
+            }
+            tokio::time::sleep(Duration::from_millis(10)).await;
+        }
+        drop(s);
+        let Some((host, p)) = got else {
+            if i < 3 {
+                // the tunnel may still be coming up
+                tokio::time::sleep(Duration::from_millis(200)).await;
+            }
+            st.count("passed_on_requests_that_never_arrived", 1);
+            continue;
+        };
+        asked += 1;
+        st.evaluations += 1;
+        st.target("tunnel_requests_compared_with_socks_request", 1);
+        st.cell("passed_on_kind", what);
+        st.nontrivial(mix(seed, 0x7000 + i as u64));
+        let replay = json!({"kind": "c18s-passed-on", "run_seed": seed, "request": format!("{req:02x?}"), "tunnel_host": format!("{host:02x?}"), "tunnel_port": p});
+        if p != port {
+            st.violation(Violation { signature: format!("tunnel-asked-for-other-port|{what}"), detail: format!("the SOCKS request named port {port}, the tunnel was asked for port {p}"), replay: replay.clone() });
+        }
+        match want_host {
+            Some(w) => {
+                if host != w {
+                    st.violation(Violation { signature: format!("tunnel-asked-for-other-host|{what}"), detail: format!("the SOCKS request named the host {w:02x?}, the tunnel was asked for {host:02x?}"), replay });
+                }
+            }
+            None => {
+                let want: std::net::Ipv6Addr = <[u8; 16]>::try_from(&req[7..23]).expect("16").into();
+                let ok = std::str::from_utf8(&host).ok().and_then(|t| t.trim_matches(|c| c == '[' || c == ']').parse::<std::net::Ipv6Addr>().ok()) == Some(want);
+                if !ok {
+                    st.violation(Violation { signature: format!("tunnel-asked-for-other-host|{what}"), detail: format!("the SOCKS request named {want}, the tunnel was asked for {:?}", String::from_utf8_lossy(&host)), replay });
+                }
+            }
+        }
+    }
+    if asked == 0 {
+        st.inconclusive.push("c18s passed-on: no request reached the recording server".into());
+    }
+    cl.abort();
+    srv.abort();
+}
+
 pub fn run(p: &Params) -> (Stats, &'static str) {
     let mut st = Stats::new();
     st.engine("E2E", 1);
@@ -465,6 +624,7 @@ pub fn run(p: &Params) -> (Stats, &'static str) {
     let cases: Vec<Case> = (0..n).map(|_| gen_case(&mut rng)).collect();
     let rt = tokio::runtime::Builder::new_multi_thread().worker_threads(2).enable_all().build().expect("rt");
     let res = rt.block_on(run_cases(base, cases));
+    rt.block_on(passed_on(&mut st, base, if p.tier_thorough { 400 } else { 60 }));
     rt.shutdown_background();
     match res {
         None => st.inconclusive.push("c18s: the tunnel never became ready".into()),
